@@ -53,6 +53,8 @@ func runC01(c *Config, r *Report) {
 	c01R23to26(ic, r)
 	c01R27(ic, r)
 	c01R28and29(ic, r)
+	c01R30(ic, r)
+	c01R31(ic, r)
 	c01R3(ic, r)
 	c01R4(ic, r)
 	// R01.5 shared with C02
@@ -422,6 +424,31 @@ func c01R3(ic *IC, r *Report) {
 		})
 		if len(found) == 0 {
 			continue
+		}
+		// the helper installs for whichever statement calls it: the cases of cfg are credited with
+		// the installation at their call, so the helper must not opt out by the kind of statement
+		// (no return before the installation, no test of the statement's kind on the way)
+		for _, as := range found {
+			why := ""
+			ast.Inspect(h.Decl.Body, func(m ast.Node) bool {
+				if rs, ok := m.(*ast.ReturnStmt); ok && rs.Pos() < as.Pos() {
+					why = "the return at " + ic.pos(rs.Pos()) + " leaves before it"
+				}
+				return true
+			})
+			for _, g := range pathGuards(h.Decl.Body, as) {
+				ast.Inspect(g.cond, func(q ast.Node) bool {
+					if se, ok := q.(*ast.SelectorExpr); ok {
+						if v := selField(ic.Info, se); v != nil && (v.Name() == "kind" || v.Name() == "action") {
+							why = "it is under the test " + types.ExprString(g.cond)
+						}
+					}
+					return true
+				})
+			}
+			gname := types.ExprString(as.Rhs[0])
+			r.Check(why == "", "R01.3", h.Obj.Name()+"/installs-"+gname+"-for-every-statement-kind", ic.pos(as.Pos()), "the helper installs the generator whatever the kind of the statement",
+				"the helper "+h.Obj.Name()+", which the cases of cfg call to install "+gname+", does not install it for every kind of statement: "+why+". For the kinds left out the body works on per-iteration copies which are never copied back (or never made): in for i := 0; ; { i++; if i > 2 { break } } the assignments of the body are lost and the loop never ends")
 		}
 		for _, c := range allCalls(cfgFn.Decl.Body) {
 			if f, ok := calleeOf(ic.Info, c).(*types.Func); ok && f == h.Obj {
